@@ -103,25 +103,21 @@ func checkC11(c *Ctx) {
 			return true
 		})
 	}
-	// constructor literal
-	walkNoLit(m.ctor.Body, func(q ast.Node) bool {
-		if cl, ok := q.(*ast.CompositeLit); ok {
-			if tv, ok := info.Types[cl]; ok && tv.Type == types.Type(m.T) {
-				v := litField(cl, m.fVis.Name())
-				okInit := false
-				if v != nil {
-					if vl, ok := unparen(v).(*ast.CompositeLit); ok && len(vl.Elts) == 0 {
-						okInit = true
-					}
-					if call, ok := unparen(v).(*ast.CallExpr); ok && isBuiltin(info, call, "make") {
-						okInit = true
-					}
-				}
-				c.ob("C11.R1", m.ctor.Name+"/initial-map", w.Pos(cl.Pos()), okInit, map[bool]string{true: "a new runner starts with an empty, non-nil visit map", false: "a new runner does not start with an empty visit map (counts must start at 0; a nil map would panic on the first jump)"}[okInit])
+	// the initial map
+	{
+		ci := m.ctorInit(w)
+		v := ci.fields[m.fVis.Name()]
+		okInit := false
+		if v != nil {
+			if vl, ok := unparen(v).(*ast.CompositeLit); ok && len(vl.Elts) == 0 {
+				okInit = true
+			}
+			if call, ok := unparen(v).(*ast.CallExpr); ok && isBuiltin(info, call, "make") {
+				okInit = true
 			}
 		}
-		return true
-	})
+		c.ob("C11.R1", m.ctor.Name+"/initial-map", w.Pos(ci.pos), okInit, map[bool]string{true: "a new runner starts with an empty, non-nil visit map", false: "a new runner does not start with an empty visit map (counts must start at 0; a nil map would panic on the first jump)"}[okInit])
+	}
 
 	// ----- R2
 	jf := jumpAutomaton(w, m)
